@@ -249,12 +249,13 @@ impl Parser {
             // Token::Or => Some((1, 2)),
             // Token::And => Some((3, 4)),
             // ´´´
-            // By giving here the NOT operator a precedence of three, we are making sur it binds tighter than  AND & OR,
-            // but looselier than +, - , * an unary operators.
+            // The operand of NOT is parsed with the left binding power of the comparison operators (5): it swallows
+            // comparisons, LIKE/IN/BETWEEN/IS, arithmetic and unary operators, but stops at AND (3) & OR (1).
+            // (With 3, the left power of AND itself, `NOT a AND b` was parsed as NOT (a AND b).)
             // This way, the expression: [NOT a AND b OR c], will be parsed as: (OR (AND (NOT a) b) c)
             Token::Not => {
                 self.next_token();
-                let expr = self.parse_expr_bp(3)?; // NOT precedence
+                let expr = self.parse_expr_bp(5)?; // NOT binds looser than comparisons, tighter than AND
                 Ok(Expr::UnaryOp {
                     op: UnaryOperator::Not,
                     expr: Box::new(expr),
